@@ -7,7 +7,8 @@
           reordered duration components, text after white space)
      K48  8-bit representations: std::chrono::round / floor wrap *)
 From BS Require Import Base ChronoSpec ChronoModel ChronoArith ChronoDecimal ChronoSweep ChronoCalendar ChronoYear
-  ChronoSafe ChronoSafeAdd ChronoText ChronoTp ChronoTpParse ChronoTpRt ChronoTs ChronoRefute.
+  ChronoSafe ChronoSafeAdd ChronoText ChronoTp ChronoTpParse ChronoTpRt ChronoTs ChronoRefute
+  ChronoDur ChronoDurPrint ChronoDurParse ChronoDurRt ChronoClassify ChronoClassify2 ChronoClassify3 ChronoProps.
 Local Open Scope Z_scope.
 
 (* ---- ParseSecondFractions: exact for every fraction of 1..9 digits (the double integer division
@@ -20,10 +21,7 @@ Print Assumptions T_C15_fraction_exact.
 
 Theorem T_C15_fraction_core : forall n v, (1 <= n <= 9)%nat -> 0 < v < 10 ^ Z.of_nat n ->
   1000000000000000000 / (10 ^ Z.of_nat n * 1000000000 / v) = v * 10 ^ (9 - Z.of_nat n).
-Proof.
-  intros n v Hn Hv. apply frac_core; [exact Hv|].
-  rewrite <- Z.pow_add_r by lia. replace (Z.of_nat n + (9 - Z.of_nat n)) with 9 by lia. reflexivity.
-Qed.
+Proof. exact c15_fraction_core. Qed.
 Print Assumptions T_C15_fraction_core.
 
 (* ten or more digits: rejected unless all zero; no digit at all: rejected *)
@@ -36,33 +34,39 @@ Print Assumptions T_C15_fraction_long.
 Example T_C15_fraction_example :
   parse_second_fractions [57;50;53;90]%N = Some (925000000, [90]%N) /\
   parse_second_fractions [48;48;48;48;48;48;48;48;48;49;90]%N = None.
-Proof. split; vm_compute; reflexivity. Qed.
+Proof. exact c15_fraction_example. Qed.
 Print Assumptions T_C15_fraction_example.
 
 (* ---- SafeDurationCast.  cast_spec from to c :=  the result is the exact value and fits the target,
         or out_of_range and no fitting exact value exists; nothing else (no UB, no other error).
-        Full strength: forall from to c (periods positive, representations int8/int32/int64/uint64, c
-        representable) -> cast_spec from to c.  Still FALSE in the general-ratio branch (K45: reduced ratio
-        with num <> 1 and den <> 1 — not reachable with the standard units): ---- *)
+        cast_dom from to c :=  representations int8/int32/int64/uint64, positive periods with cross products
+        up to 2^62, c representable in the source.
+        Full strength:  forall from to c, cast_dom from to c -> cast_spec from to c.
+        Still FALSE in the class  general_ratio from to = true  (K45: reduced ratio with num <> 1 and
+        den <> 1 — not reachable with the standard units): ---- *)
 Theorem T_C15_safe_cast_refuted :
-  exists from to c, rep4 (d_rep from) /\ rep4 (d_rep to) /\ wf_dty from /\ wf_dty to /\
-     fits (d_rep from) c = true /\ ~ cast_spec from to c.
-Proof.
-  exists (mkD I64 2 3), (mkD I64 1 1), 1. unfold rep4, wf_dty. cbn [d_rep d_num d_den].
-  repeat split; auto; try lia.
-  unfold cast_spec. rewrite w_K45. unfold exact_cast. cbn. intros [_ H]. lia.
-Qed.
+  exists from to c, cast_dom from to c /\ general_ratio from to = true /\ ~ cast_spec from to c.
+Proof. exact c15_safe_cast_refuted. Qed.
 Print Assumptions T_C15_safe_cast_refuted.
 
-(* outside that branch (reduced ratio with num = 1 or den = 1, i.e. every pair of the units ns .. weeks):
-   exact, for every pair of representations, incl. negative counts into unsigned targets and uint64 counts
-   above INT64_MAX (the classes N1 / N2 repaired by 30f5d3e) *)
+(* the same domain, outside the class: exact for every pair of representations, incl. negative counts into
+   unsigned targets and uint64 counts above INT64_MAX (K43 / K44, repaired by 30f5d3e) *)
 Theorem T_C15_safe_cast_outside : forall from to c,
-  rep4 (d_rep from) -> rep4 (d_rep to) -> wf_dty from -> wf_dty to ->
-  d_num from * d_den to <= 4611686018427387904 -> d_den from * d_num to <= 4611686018427387904 ->
-  fits (d_rep from) c = true -> simple_ratio from to -> cast_spec from to c.
-Proof. exact safe_cast_correct. Qed.
+  cast_dom from to c -> general_ratio from to = false -> cast_spec from to c.
+Proof. exact c15_safe_cast_outside. Qed.
 Print Assumptions T_C15_safe_cast_outside.
+
+(* the class predicate is the negation of "num = 1 or den = 1" *)
+Theorem T_C15_safe_cast_class : forall from to, simple_ratiob from to = true <-> simple_ratio from to.
+Proof. exact simple_ratiob_spec. Qed.
+Print Assumptions T_C15_safe_cast_class.
+
+(* every pair of the units ns, us, ms, s, min, h, days, weeks lies in the domain and outside the class *)
+Theorem T_C15_safe_cast_units : forall r1 r2 u w c, rep4 r1 -> rep4 r2 -> fits r1 c = true ->
+  cast_dom (udty r1 u) (udty r2 w) c /\ general_ratio (udty r1 u) (udty r2 w) = false /\
+  cast_spec (udty r1 u) (udty r2 w) c.
+Proof. exact c15_safe_cast_units. Qed.
+Print Assumptions T_C15_safe_cast_units.
 
 Example T_C15_safe_cast_example :
   safe_cast (mkD I64 604800 1) (mkD I32 1 1) 3550 = Ok 2147040000 /\
@@ -71,7 +75,7 @@ Example T_C15_safe_cast_example :
   safe_cast (mkD U64 1 1) (mkD I8 60 1) 7621 = Err OutOfRange /\
   safe_cast SecT (mkD U64 60 1) (-16) = Err OutOfRange /\
   safe_cast (mkD U64 1 1) (mkD I64 60 1) 18446744073709551600 = Ok 307445734561825860.
-Proof. repeat split; vm_compute; reflexivity. Qed.
+Proof. exact c15_safe_cast_example. Qed.
 Print Assumptions T_C15_safe_cast_example.
 
 (* ---- SafeAddDuration (both overloads): the exact sum or out_of_range; never UB, never wrapped ---- *)
@@ -97,7 +101,7 @@ Print Assumptions T_C15_safe_add_tp.
 Example T_C15_safe_add_example :
   safe_add_dur (mkD I8 1 1) 100 (mkD I64 1 1) 27 = Ok 127 /\ safe_add_dur (mkD I8 1 1) 100 (mkD I64 1 1) 28 = Err OutOfRange /\
   safe_add_tp (mkD I64 1 1000000000) (-9223372036854775807) (mkD I64 1 1) (-1) = Err OutOfRange.
-Proof. repeat split; vm_compute; reflexivity. Qed.
+Proof. exact c15_safe_add_example. Qed.
 Print Assumptions T_C15_safe_add_example.
 
 (* ---- only fractions of a second are rounded, to nearest with ties to even:
@@ -114,53 +118,68 @@ Theorem T_C15_date_steps : forall A y m d (K : Z -> outcome A),
   -30000000000000000 <= y <= 30000000000000000 -> 1 <= m <= 12 -> 1 <= d <= 31 ->
   -9223372036854775808 <= days_from_civil y m d <= 9223372036854775807 - 719468 ->
   date_steps y m d K = K (days_from_civil y m d).
-Proof. intros A. exact (@date_steps_ok A). Qed.
+Proof. exact c15_date_steps. Qed.
 Print Assumptions T_C15_date_steps.
 
-(* near -2^63 years the guards added by d4af9ec report out_of_range (was signed overflow) *)
-Example T_C15_year_guard : tp_parse Pd I64 text_N4 = Err OutOfRange /\ tp_parse Ps I64 text_N4b = Err OutOfRange.
-Proof. exact r_N4. Qed.
+(* K46 (repaired by d4af9ec): near -2^63 years the guards report out_of_range (was signed overflow) *)
+Example T_C15_year_guard : tp_parse Pd I64 text_K46 = Err OutOfRange /\ tp_parse Ps I64 text_K46b = Err OutOfRange.
+Proof. exact r_K46. Qed.
 Print Assumptions T_C15_year_guard.
 
-(* 29 February only in leap years (5f3f75a); -P9223372036854775808D (beee810) *)
-Example T_C15_repaired : tp_parse Ps I64 text_F34 = Err InvalidArgument /\ tp_parse Ps I64 text_F34b = Ok 1709164800 /\
-  dur_parse Pd I64 text_N5 = Ok (-9223372036854775808).
-Proof. destruct r_F34 as [H1 H2]. exact (conj H1 (conj H2 r_N5)). Qed.
+(* K40 (5f3f75a): 29 February only in leap years; K47 (beee810): -P9223372036854775808D *)
+Example T_C15_repaired : tp_parse Ps I64 text_K40 = Err InvalidArgument /\ tp_parse Ps I64 text_K40b = Ok 1709164800 /\
+  dur_parse Pd I64 text_K47 = Ok (-9223372036854775808).
+Proof. exact c15_repaired. Qed.
 Print Assumptions T_C15_repaired.
 
 (* still open, as observed behaviour of the model: lenient grammar (K41, K42) and int8 wrap (K48) *)
 Example T_C15_open_classes :
   tp_parse Ps I64 text_K41 = Ok 1672531200 /\ dur_parse Ps I64 text_K42 = Ok 3601 /\
   dur_parse Pms I8 text_K48 = Ok (-55).
-Proof. exact (conj w_K41 (conj w_K42 (proj1 w_K48))). Qed.
+Proof. exact c15_open_classes. Qed.
 Print Assumptions T_C15_open_classes.
+
+(* ---- T_C15_tp_classify.  Specification (ChronoSpec.v): tp_grammar s  =  s is tf_render f for fields f with
+        tf_wf f (sign rules, four or more year digits, two-digit fields, 1..9 fraction digits after '.' or ',',
+        'Z'; every field in range, the day within the month OF THAT YEAR);  tp_expected P R f  =  the count
+        count_of P gives the denoted instant (whole seconds exactly, only the fraction rounded, half to even) if it
+        fits R, otherwise out_of_range.
+        Full strength, for R int64 / int32 and every precision:
+          forall s,  (forall f, tf_wf f -> s = tf_render f -> tp_parse P R s = tp_expected P R f)  /\
+                     (~ tp_grammar s -> tp_parse P R s = Err InvalidArgument).
+        FALSE twice: K41 (second half: texts outside the grammar are accepted) and the parse half of K35 (first
+        half, time_point<days,int64> only). ---- *)
+Theorem T_C15_tp_classify_refuted :
+  (~ tp_grammar text_K41 /\ tp_parse Ps I64 text_K41 = Ok 1672531200) /\
+  (tf_wf fields_K35 /\ k35_parse Pd I64 fields_K35 = true /\
+   tp_parse Pd I64 (tf_render fields_K35) = Err OutOfRange /\ tp_expected Pd I64 fields_K35 = Ok 9223372036854775807).
+Proof. exact (conj c15_tp_classify_refuted c15_tp_classify_k35). Qed.
+Print Assumptions T_C15_tp_classify_refuted.
+
+(* first half, outside the class k35_parse (a date in the last 719468 days of time_point<days,int64>): on EVERY
+   text of the documented grammar the result is exactly the specified classification — the denoted count, or
+   out_of_range; in particular never invalid_argument, never UB, never a wrapped or truncated count *)
+Theorem T_C15_tp_classify_outside : forall P R f, c14_rep P R -> tf_wf f -> k35_parse P R f = false ->
+  tp_parse P R (tf_render f) = tp_expected P R f.
+Proof. exact tp_classify_grammar. Qed.
+Print Assumptions T_C15_tp_classify_outside.
 
 (* ======================================================================================================
    NOT PROVED (kept here at full strength; nothing below is claimed by the obligations above)
 
-   T_C15_tp_classify :
-     forall P R s, (R = I64 \/ R = I32 \/ R = U64) ->
-       match tp_parse P R s with
-       | Ok t => exists ns, tp_denotes s ns /\ count_of P (ns / 10^9) (ns mod 10^9) = Some t /\ fits R t = true
-       | Err InvalidArgument => ~ tp_grammar s
-       | Err OutOfRange => exists ns, tp_denotes s ns /\
-                             (count_of P (ns / 10^9) (ns mod 10^9) = None \/ forall t, count_of P .. = Some t -> fits R t = false)
-       | _ => False     (never UB, never RuntimeError, never a wrapped count)
-       end
-     (tp_grammar / tp_denotes / count_of: ChronoSpec.v; only the fraction of a second is rounded, half to even).
-     Known to be FALSE as stated because of K41 (texts outside the documented grammar are accepted), so the
-     final form will be a _refuted / _outside pair with the lenient texts as the class.
-     Proved building blocks: T_C15_fraction_exact, T_C15_round, T_C15_date_steps, T_C15_safe_add_tp,
-     T_C15_safe_cast_outside, ChronoText.parse_printed (ParseIsoUtc on the canonical text of any valid
-     date-time returns its fields), ChronoTpRt.tp_of_parts_ok (the fields of a representable instant give back
-     its count) — i.e. the "documented text of a representable instant -> Ok of its count" direction for the
-     canonical texts; not proved: the inversion (Ok / InvalidArgument / OutOfRange => grammar facts) and
-     non-canonical texts (',' separator, fewer fraction digits, explicit '+').
+   T_C15_tp_classify, second half (texts OUTSIDE the grammar):
+     forall P R s, ~ tp_grammar s -> ~ tp_lenient s -> tp_parse P R s = Err InvalidArgument
+     where tp_lenient is the class of K41, to be given independently of the parser: optional '+' then optional
+     '-', every numeric field any non-empty digit string (in range, or too long for its integer type, which is
+     reported as out_of_range at that point), fraction digits of any length when all zero, anything after 'Z'.
+     Needs the inversion of ParseIsoUtc / std::from_chars (Ok or OutOfRange => the text has that shape); not done.
 
-   T_C15_dur_classify : the same shape for durations with dur_grammar / dur_denotes (uint64 magnitudes, sign,
-     unit letter by section, fraction only in the seconds part, negative into unsigned = OutOfRange); FALSE as
-     stated because of K42; nothing proved beyond the shared building blocks.
+   T_C15_dur_classify : the same two halves for durations with dur_grammar / dur_denotes (uint64 magnitudes, sign,
+     unit letter by section, fraction only in the seconds part, negative into unsigned = OutOfRange); the second
+     half is FALSE because of K42; nothing proved beyond the shared building blocks and T_C14_duration (the texts
+     the library prints parse back exactly).
 
-   Representation domains: int8_t targets are outside T_C15_round (K48); time_t / tm / char16_t / char32_t
-   targets and inputs: correspondence only.
+   Representation domains: int8_t targets are outside T_C15_round and T_C15_tp_classify_outside (K48); uint64
+   time points (the parser computes the day number in int64, so uint64 day counts above 2^63 are reported
+   out_of_range), time_t / tm / char16_t / char32_t targets and inputs: correspondence only.
    ====================================================================================================== *)
